@@ -14,14 +14,19 @@ Points(s, e) == IF Pointwise \/ e - s < 64 THEN s..e
                 ELSE {s, s + 1, e - 1, e} \cup {s + ((e - s) * k) \div 17 : k \in 1..16}
 
 \* "r2s": for o in start..end  rom_to_snes(o, mode) = snes + (o - start)  and
-\*        snes_to_rom(rom_to_snes(o, mode)) = o + back_delta
+\*        snes_to_rom(rom_to_snes(o, mode)) = o + back_delta   and
+\*        (the assembler's bus for the mode).get_address(rom_to_snes(o, mode)).physical = o + phys_delta
 R2SClause(r) ==
     LET bad1 == {o \in Points(r.start, r.end) : RomToSnes(o, r.mode) # r.snes + (o - r.start)}
         bad2 == {o \in Points(r.start, r.end) : ~AgreesWithBus(o, r.mode)}
         bad3 == {o \in Points(r.start, r.end) : RoundTripApplies(o, r.mode) /\ r.back_delta # 0}
+        \* the real bus of the mode (phys_delta = its file offset for the converted address minus o), wherever the
+        \* specified bus maps that address as ROM
+        bad4 == {o \in Points(r.start, r.end) : Class(ModeBus(r.mode), RomToSnes(o, r.mode)) = "rom" /\ r.phys_delta # 0}
     IN IF bad1 # {} THEN "rom_to_snes differs from the closed form at " \o ToString(CHOOSE o \in bad1 : TRUE)
        ELSE IF bad2 # {} THEN "closed form disagrees with the bus"
        ELSE IF bad3 # {} THEN "snes_to_rom does not map back at " \o ToString(CHOOSE o \in bad3 : TRUE)
+       ELSE IF bad4 # {} THEN "the assembler's mapping puts the converted address at another file offset, at " \o ToString(CHOOSE o \in bad4 : TRUE)
        ELSE "ok"
 
 LlpClause(r) == IF r.base + r.p < 4194304 /\ r.base >= 0 /\ r.p >= 0
